@@ -66,7 +66,7 @@ SRCS = [SRC, "spqlios/arithmetic/vec_znx.c", "spqlios/coeffs/coeffs_arithmetic_a
         "spqlios/q120/q120_arithmetic_ref.c", "spqlios/q120/q120_arithmetic_simple.c",
         "spqlios/arithmetic/vec_znx_dft.c", "spqlios/arithmetic/scalar_vector_product.c", "spqlios/arithmetic/znx_small.c",
         "spqlios/arithmetic/vector_matrix_product.c", "spqlios/q120/q120_arithmetic_avx2.c",
-        "spqlios/reim/reim_fftvec_addmul_ref.c"]
+        "spqlios/reim/reim_fftvec_addmul_ref.c", "spqlios/reim4/reim4_arithmetic_ref.c"]
 # per-file ISA flags (as in spqlios/CMakeLists.txt): the intrinsics need their target features to parse
 EXTRA_CFLAGS = {"spqlios/coeffs/coeffs_arithmetic_avx.c": ["-mavx2", "-mfma"],
                 "spqlios/arithmetic/vec_znx_avx.c": ["-mavx2", "-mfma"],
@@ -111,6 +111,9 @@ TARGETS = [
     # binary64 pointwise product kernels (spqlios/reim/reim_fftvec_addmul_ref.c, compiled without -mfma: separate
     # multiplications and additions); the precomputation object is a struct parameter whose cell 1 is `m`
     "reim_fftvec_mul_ref", "reim_fftvec_addmul_ref",
+    # reference reim4 block kernels (spqlios/reim4/reim4_arithmetic_ref.c).  Translated as functions of their own; inside
+    # the module-layer functions above the same names stay opaque `extcall`s (EXT_KERNELS)
+    "reim4_extract_1blk_from_reim_ref", "reim4_save_1blk_to_reim_ref", "reim4_extract_1blk_from_contiguous_reim_ref",
 ]
 
 # opaque kernels of the module layer: name -> (argument kinds, field of `module->mod.fft64` the object argument must be)
@@ -517,6 +520,9 @@ class FnTranslator:
                 if t == "f64" or scalar_ty(c, "cast operand") == "f64":
                     self.err(n, "cast involving double")
                 return f"(.cast .{t} {self.expr(c)})"
+            if (ck == "IntegralToFloating" and scalar_ty(n, "cast") == "f64" and c.get("kind") == "IntegerLiteral"
+                    and int(c["value"]) == 0):
+                return "(.lit 0)"       # `(double)0`: the binary64 pattern of +0.0 is 0 (the only conversion accepted)
             self.err(n, f"cast kind {ck}")
         if k == "UnaryOperator":
             op = n["opcode"]
@@ -863,7 +869,7 @@ class FnTranslator:
             et = scalar_ty(c, "element")
             if p["k"] == "mem" and ((p["unit"] == 4) != (et in ("u32",))):
                 self.err(c, "element width differs from the pointer's element width")
-            if et not in ("u64", "i64", "u32"):
+            if et not in ("u64", "i64", "u32", "f64"):     # f64: an 8-byte cell holding the binary64 pattern
                 self.err(c, f"element type {et}")
             if p["k"] == "slots" and et != "u64":
                 self.err(c, "local array of a type other than uint64_t")
